@@ -158,6 +158,130 @@ example : same (eval 7 [("b", .bool true)] (.tmplS [.cond (.var "b") (.tmplS [.v
 example : same (eval 7 [("t", .tuple [.null])] (.join (.forE none "v" (.var "t") none (.var "v") none false))) (.err .str) = true := by decide
 
 /-! ## precedence, associativity, parentheses (the parser of binary operators) -/
+
+/-! ### flush heredocs: the common indentation is cut, a line that starts with an interpolation pins it to 0 -/
+namespace Flush
+
+/-- whether the token after `ps` starts a line -/
+def nlAfter : Bool → List E → Bool
+  | nl, [] => nl
+  | _, p :: ps => nlAfter (match p with | .str s => endsNl s | _ => false) ps
+
+/-- the literals that start a counted line -/
+def counted : Bool → List E → List String
+  | _, [] => []
+  | nl, p :: ps =>
+    let here := match p with | .str s => if nl && !blankLine s then [s] else [] | _ => []
+    here ++ counted (match p with | .str s => endsNl s | _ => false) ps
+
+theorem flushCut_zero (nl : Bool) (ps : List E) : flushCut 0 nl ps = ps := by
+  induction ps generalizing nl with
+  | nil => rfl
+  | cons p ps ih =>
+    cases p <;> simp [flushCut, ih]
+
+theorem flushMin_zero (nl : Bool) (ps : List E) : flushMin nl ps (some 0) = some 0 := by
+  induction ps generalizing nl with
+  | nil => rfl
+  | cons p ps ih =>
+    cases nl
+    · simp only [flushMin, Bool.false_eq_true, if_false]; exact ih _
+    · cases p with
+      | str s =>
+        by_cases hb : blankLine s = true
+        · simp only [flushMin, if_true, hb]; exact ih _
+        · simp only [flushMin, if_true, hb, minO, Nat.zero_min]; exact ih _
+      | _ => simp only [flushMin, if_true]; exact ih _
+
+theorem flushMin_append (nl : Bool) (a b : List E) (m : Option Nat) :
+    flushMin nl (a ++ b) m = flushMin (nlAfter nl a) b (flushMin nl a m) := by
+  induction a generalizing nl m with
+  | nil => rfl
+  | cons p a ih => simp only [List.cons_append, flushMin, nlAfter]; exact ih _ _
+
+/-- the whole text is kept as written when some line starts with an interpolation (or a directive) -/
+theorem interp_at_line_start_pins_zero (pre post : List E) (e : E) (hl : nlAfter true pre = true)
+    (he : ∀ s, e ≠ .str s) : flushParts (pre ++ e :: post) = pre ++ e :: post := by
+  have hm : flushMin true (pre ++ e :: post) none = some 0 := by
+    rw [flushMin_append, hl]
+    unfold flushMin
+    have : (match e with
+         | .str s => if blankLine s = true then flushMin true pre none else minO (flushMin true pre none) (leadBlanks s)
+         | _ => some 0) = some 0 := by
+      cases e <;> first | rfl | exact absurd rfl (he _)
+    simp only [if_true, this]; exact flushMin_zero _ _
+  unfold flushParts; rw [hm]; exact flushCut_zero _ _
+
+theorem flushCut_length (n : Nat) (nl : Bool) (ps : List E) : (flushCut n nl ps).length = ps.length := by
+  induction ps generalizing nl with
+  | nil => rfl
+  | cons p ps ih => simp [flushCut, ih]
+
+theorem minO_le (m : Option Nat) (k n : Nat) (h : minO m k = some n) : n ≤ k ∧ ∀ j, m = some j → n ≤ j := by
+  cases m with
+  | none => simp [minO] at h; subst h; exact ⟨Nat.le_refl _, by simp⟩
+  | some j => simp [minO] at h; subst h; exact ⟨Nat.min_le_right _ _, by intro j' hj; cases hj; exact Nat.min_le_left _ _⟩
+
+/-- the running minimum never grows -/
+theorem flushMin_le_acc (nl : Bool) (ps : List E) (m : Option Nat) (n j : Nat)
+    (h : flushMin nl ps m = some n) (hm : m = some j) : n ≤ j := by
+  induction ps generalizing nl m j with
+  | nil => simp [flushMin] at h; rw [h] at hm; cases hm; exact Nat.le_refl _
+  | cons p ps ih =>
+    unfold flushMin at h
+    subst hm
+    by_cases hnl : nl = true
+    · simp only [hnl, if_true] at h
+      cases p with
+      | str s =>
+        by_cases hb : blankLine s = true
+        · simp only [hb, if_true] at h; exact ih _ _ _ h rfl
+        · simp only [hb] at h
+          exact Nat.le_trans (ih _ _ _ h rfl) (Nat.min_le_left _ _)
+      | _ => exact Nat.le_trans (ih _ _ _ h rfl) (Nat.zero_le _)
+    · simp only [hnl] at h; exact ih _ _ _ h rfl
+
+/-- only blanks are cut: the amount removed is at most the indentation of every counted line -/
+theorem cut_at_most_indentation (nl : Bool) (ps : List E) (m : Option Nat) (n : Nat)
+    (h : flushMin nl ps m = some n) : ∀ s ∈ counted nl ps, n ≤ leadBlanks s := by
+  induction ps generalizing nl m with
+  | nil => intro s hs; simp [counted] at hs
+  | cons p ps ih =>
+    intro s hs
+    unfold flushMin at h
+    simp only [counted, List.mem_append] at hs
+    rcases hs with hs | hs
+    · cases p with
+      | str t =>
+        by_cases hc : (nl && !blankLine t) = true
+        · simp only [hc, if_true, List.mem_singleton] at hs
+          subst hs
+          simp only [Bool.and_eq_true, Bool.not_eq_true'] at hc
+          simp only [hc.1, if_true, hc.2] at h
+          cases hm : m with
+          | none => rw [hm] at h; exact flushMin_le_acc _ _ _ _ _ h rfl
+          | some j => rw [hm] at h; exact Nat.le_trans (flushMin_le_acc _ _ _ _ _ h rfl) (Nat.min_le_right _ _)
+        · simp [hc] at hs
+      | _ => simp at hs
+    · exact ih _ _ h s hs
+
+theorem flush_cuts_blanks_only (ps : List E) (n : Nat) (h : flushMin true ps none = some n) :
+    ∀ s ∈ counted true ps, n ≤ leadBlanks s := cut_at_most_indentation true ps none n h
+
+/-- `<<-EOT` / `    a` / `  ${x}` / `    b` / `EOT`: two blanks go -/
+def lits (ps : List E) : List String := ps.map fun e => match e with | .str s => s | _ => "?"
+example : lits (flushParts [.str "    a\n", .str "  ", .var "x", .str "\n", .str "    b\n"])
+    = ["  a\n", "", "?", "\n", "  b\n"] := by decide
+/-- … and none when the second line starts with the interpolation -/
+example : lits (flushParts [.str "    a\n", .var "x", .str "\n", .str "    b\n"])
+    = ["    a\n", "?", "\n", "    b\n"] := by decide
+/-- a blank line neither counts nor is touched -/
+example : lits (flushParts [.str "  a ", .var "x", .str "\n", .str "\n", .str "   b\n"])
+    = ["a ", "?", "\n", "\n", " b\n"] := by decide
+example : nlAfter true [E.str "    a\n"] = true := by decide
+
+end Flush
+
 namespace Prec
 open Havoc.Prec Havoc.Hx
 
